@@ -1452,6 +1452,46 @@ class FuncEmitter:
                     phis.setdefault(bn, []).append(i)
         self.phis = phis
         self.has_landing = any(i['op'] == 'landingpad' for bn, ins in parsed for i in ins)
+        # shifts all of whose uses are arms of a select: an over-wide amount only yields poison that the select
+        # discards (clang's if-conversion of `n < W ? x >> n : 0'), so no UB assertion is emitted for them
+        def locals_in(v, acc):
+            if isinstance(v, tuple) and len(v) >= 2 and v[0] == 'local' and isinstance(v[1], str):
+                acc.append(v[1])
+            elif isinstance(v, (tuple, list)):
+                for x in v:
+                    locals_in(x, acc)
+            elif isinstance(v, dict):
+                for x in v.values():
+                    locals_in(x, acc)
+        PURE = ('add', 'sub', 'mul', 'and', 'or', 'xor', 'shl', 'lshr', 'ashr', 'icmp', 'zext', 'sext', 'trunc')
+        shifts = set(i['dest'] for bn, ins in parsed for i in ins if i['op'] in ('shl', 'lshr', 'ashr'))
+        uses = {}           # local -> [(user op, user dest, is-select-arm)]
+        for bn, ins in parsed:
+            for i in ins:
+                if i['op'] == 'select':
+                    acc = []
+                    locals_in(i.get('c'), acc)
+                    for n in acc:
+                        uses.setdefault(n, []).append(('other', None))
+                    acc = []
+                    locals_in([i.get('a'), i.get('b')], acc)
+                    for n in acc:
+                        uses.setdefault(n, []).append(('arm', None))
+                else:
+                    acc = []
+                    locals_in({k: v for k, v in i.items() if k != 'dest'}, acc)
+                    for n in acc:
+                        uses.setdefault(n, []).append((i['op'] if i['op'] in PURE else 'other', i.get('dest')))
+        guarded = set(n for n in uses)
+        changed = bool(shifts)
+        while changed:
+            changed = False
+            for n in list(guarded):
+                ok = all(k == 'arm' or (k != 'other' and d in guarded) for k, d in uses[n])
+                if not ok:
+                    guarded.discard(n)
+                    changed = True
+        self.spec_shift = shifts & guarded
         # emit
         for bn, ins in parsed:
             self.cur_block = bn
@@ -1794,7 +1834,10 @@ class FuncEmitter:
             t = I['t']
             w = E.resolve(t)[1]
             a, b = self.val(t, I['a']), self.val(t, I['b'])
-            c.append('VP_UB((uint64_t)%s < %d, "UB: shift amount >= width");' % (b, w))
+            if I['dest'] not in self.spec_shift:
+                c.append('VP_UB((uint64_t)%s < %d, "UB: shift amount >= width");' % (b, w))
+            elif I['b'][0] == 'local':
+                b = '(%s & %d)' % (b, w - 1)      # any value will do: the result is poison and only feeds select arms
             pt = E.uprom(w)
             if op == 'shl':
                 c.append('%s = %s;' % (D, E.mask(w, '(%s)%s << %s' % (pt, a, b))))
